@@ -265,8 +265,10 @@ theorem shared_var_immutable {α : Type} (v : SharedVar α) (hw : v.writes = [])
 /-- **`cron.standardParser` is immutable**: the source contains no assignment to it, none through
 it, its address is never taken, every `Parser` method has a value receiver and every field of
 `Parser` is of value type (factgen aborts on a pointer/slice/map/… field, which all copies of the
-value would share) — so every
-`ParseStandard` works on a copy of the initial value, whatever else runs. -/
+value would share) — so the parser value every `ParseStandard` call copies is the initial one.
+This says nothing yet about the OTHER package-level state a parse reads (`places`, `defaults`, the
+`bounds` tables `seconds … dow` with their name maps): that is `package_vars_classified` /
+`unwritten_vars_constant` below. -/
 theorem standard_parser_immutable :
     Kit.Generated.C08.standardParserWrites = [] ∧ Kit.Generated.C08.parserValueReceivers = true ∧
     Kit.Generated.C08.parserValueFields = ["options"] ∧
@@ -294,6 +296,71 @@ theorem aeskw_default_iv_immutable :
   refine ⟨by decide, ?_⟩
   intro iv ops v' h
   rw [shared_var_immutable ⟨iv, Kit.Generated.C08.aeskwDefaultIVWrites⟩ rfl ops v' h]
+
+/-! ### every package-level variable of the anchored packages -/
+
+/-- **Inventory.** Every package-level `var` of schemes/enc/v1, byteslicepool (none), logger, cron,
+crypto, crypto/aeskw, crypto/padding, crypto/aescbcaead (none) — regenerated from the source with
+its write sites — falls in exactly one class, and it is the class listed here:
+* `immutable`: no write site in its package (assignment to it / its elements / its fields,
+  inc/dec, address taken, delete/clear/copy-into/append-to, pointer-receiver call on a struct
+  value, write through an alias or through a parameter of a callee that receives it — followed
+  through `Parse → field → getField → getRange → parseIntOrName` for the `bounds` tables —, a
+  returned reference);
+* `config`: the same, but exported and meant to be set by clients (`logger.DaprVersion`,
+  `cron.DefaultLogger`, `cron.DiscardLogger`): the property ASSUMES client code assigns exported
+  variables (these, the sentinel errors, `enc.BufPool`) only before operations start;
+* `guarded`: `logger.globalLoggers`, every function touching it first takes `globalLoggersLock`
+  (`logger_lock_facts_match`, `logger_registry_linearizable`);  `lock`: that RWMutex;
+* `pool`: `enc.BufPool`, used only through Get/Put under the ownership discipline
+  (`pool_discipline_facts`, `enc_pipelines_independent`).
+A new variable, a new write site or a changed kind changes the regenerated list and breaks this
+`decide`.  Not tracked: what pointer/interface values point to — `defaultOpLogger` points to an
+empty struct (kind checked), `DefaultLogger`/`DiscardLogger` wrap a standard-library `*log.Logger`. -/
+theorem package_vars_classified :
+    (Kit.Generated.C08.pkgVars.map fun v => (v.qname, classify v)) =
+    [("schemes/enc/v1.ErrDecryptionKeyMissing", some .immutable), ("schemes/enc/v1.ErrDecryptionSignature", some .immutable),
+     ("schemes/enc/v1.ErrDecryptionFailed", some .immutable), ("schemes/enc/v1.BufPool", some .pool),
+     ("logger.DaprVersion", some .config), ("logger.logContextKey", some .immutable),
+     ("logger.globalLoggers", some .guarded), ("logger.globalLoggersLock", some .lock),
+     ("logger.defaultOpLogger", some .immutable),
+     ("cron.DefaultLogger", some .config), ("cron.DiscardLogger", some .config),
+     ("cron.places", some .immutable), ("cron.defaults", some .immutable), ("cron.standardParser", some .immutable),
+     ("cron.seconds", some .immutable), ("cron.minutes", some .immutable), ("cron.hours", some .immutable),
+     ("cron.dom", some .immutable), ("cron.months", some .immutable), ("cron.dow", some .immutable),
+     ("crypto.ErrUnsupportedAlgorithm", some .immutable), ("crypto.ErrKeyTypeMismatch", some .immutable),
+     ("crypto.ErrInvalidNonce", some .immutable), ("crypto.ErrInvalidTag", some .immutable),
+     ("crypto.ErrInvalidPlaintextLength", some .immutable), ("crypto.ErrInvalidCiphertextLength", some .immutable),
+     ("crypto/aeskw.defaultIV", some .immutable),
+     ("crypto/padding.ErrInvalidPKCS7BlockSize", some .immutable), ("crypto/padding.ErrInvalidPKCS7Padding", some .immutable)] ∧
+    (Kit.Generated.C08.pkgVars.filter fun v => v.guardedBy != "").map (fun v => (v.name, v.guardedBy)) =
+      [("globalLoggers", "globalLoggersLock")] := by decide
+
+/-- a variable classified `immutable` or `config` has no write site, hence (`shared_var_immutable`)
+every sequence of the operations the source can perform on it leaves its initial value in place:
+all readers — every parse reading `places`/`defaults`/`months`…, every logger reading
+`DaprVersion` — see the same value whatever else runs in the package -/
+theorem unwritten_vars_constant (v : PkgVar) (hc : classify v = some .immutable ∨ classify v = some .config)
+    {α : Type} (x0 : α) (ops : List (VarOp α)) (v' : SharedVar α)
+    (h : varRun ⟨x0, v.writes⟩ ops = some v') : v.writes = [] ∧ v'.val = x0 := by
+  have hw : v.writes = [] := by
+    unfold classify at hc
+    by_cases h1 : (v.kind == "sync.Pool") = true
+    · simp only [h1, if_true] at hc
+      split at hc <;> simp at hc
+    · simp only [h1] at hc
+      by_cases h2 : (v.kind == "lock") = true
+      · simp only [h2, if_true] at hc
+        split at hc <;> simp at hc
+      · simp only [h2] at hc
+        by_cases h3 : (v.guardedBy != "") = true
+        · simp [h3] at hc
+        · simp only [h3] at hc
+          by_cases h4 : (!v.writes.isEmpty) = true
+          · simp [h4] at hc
+          · simpa using h4
+  refine ⟨hw, ?_⟩
+  rw [shared_var_immutable ⟨x0, v.writes⟩ hw ops v' h]
 
 /-- non-vacuity: reads are possible; a listed assignment WOULD change the value -/
 example : varRun (⟨3, []⟩ : SharedVar Nat) [.read, .read] = some ⟨3, []⟩ ∧
